@@ -414,6 +414,58 @@ def rule_hi_truncation(col, facts):
 
 
 # ---------------------------------------------------------------------------------------------
+def rule_binary_factor(col, facts):
+    """TBL-factor: byte_comp leaves integral_binary_factor(radix) spare leading-zero bits in the denominator so
+    that `numerator * radix` cannot carry into an extra limb before large_quorem (which asserts
+    x.len() <= y.len()); that needs ceil(log2(radix)) bits.  A smaller entry panics on particular digits,
+    a larger one wastes precision of the quotient digit."""
+    from rules.tbl_parse_float import valid_radices
+    R = "TBL-factor"
+    f = facts.fn(PF + "slow::integral_binary_factor")
+    n = 0
+    for r in valid_radices(facts):
+        if D.is_pow2(r):
+            continue
+        try:
+            got = tbl_eval(facts, f, [r]).value
+        except NotATable as e:
+            col.bad(R, "integral_binary_factor-shape", "no longer a lookup table (%s)" % e, f.loc())
+            return
+        need = (r - 1).bit_length()          # ceil(log2(r)) for r not a power of two
+        n += 1
+        col.check(R, "integral_binary_factor(%d)" % r, got == need,
+                  "= %s but ceil(log2(%d)) = %d: with fewer spare bits num*%d carries into an extra limb and large_quorem's `x.len() <= y.len()` assertion fails on some near-halfway inputs" % (got, r, need, r), f.loc())
+    col.floor(R, "integral_binary_factor entries", n, 1)
+
+
+# ---------------------------------------------------------------------------------------------
+def rule_chunk_padding(col, facts):
+    """PAIR-chunk: algorithm_u128 splits the value with u128_divrem into a quotient and a remainder of exactly
+    `u64_step(radix)` digits.  A remainder is an inner chunk: its leading zeros are digits of the number, so
+    it must go through write_step_digits (zero-padded to `step`); only the final quotient may use
+    write_digits."""
+    if facts.config.startswith("compact") or not ("power-of-two" in facts.config or "radix" in facts.config):
+        return
+    R = "PAIR-chunk"
+    f = facts.fn("lexical_write_integer::algorithm::algorithm_u128")
+    n = 0
+    for bb, c, a, d, t in f.calls():
+        cn = last_seg(callee_name(c))
+        if cn not in ("write_digits", "write_step_digits"):
+            continue
+        e = strip_casts(op_expr(f, a[0]))
+        if e[0] == "proj" and strip_casts(e[1])[0] == "call" and last_seg(strip_casts(e[1])[1]) == "u128_divrem":
+            n += 1
+            if e[2] == (1,):
+                col.check(R, "algorithm_u128:remainder#%d" % n, cn == "write_step_digits",
+                          "a u128_divrem remainder (an inner chunk of exactly `step` digits) is written with %s: its leading zeros are dropped and the higher chunk lands on the wrong bytes" % cn, f.loc(f.blocks[bb]["ts"]))
+            elif e[2] == (0,):
+                col.check(R, "algorithm_u128:quotient#%d" % n, cn == "write_digits",
+                          "the final quotient is written with %s (zero-padded): leading zeros would be emitted" % cn, f.loc(f.blocks[bb]["ts"]))
+    col.floor(R, "chunk writes fed by u128_divrem", n, 4)
+
+
+# ---------------------------------------------------------------------------------------------
 def rule_bigfloat_bits(col, facts):
     """TBL-limits (Bigfloat): byte_comp scales b+h by radix^|sci_exp| up to 2^1075 and multiplies by a
     64-bit significand: EXPONENT_BIAS + 64 bits at least."""
